@@ -852,6 +852,8 @@ class Unit:
         fname = icfg["wrap_fn"]
         self.report.add("W12", label, f"closure `{hdr}` wrapped as `{icfg['wrap_sig']}`; the enclosing expression is not verified")
         body = raw if ct[bf].text == "{" else "{ " + raw + " }"
+        if icfg.get("wrap_head"):
+            body = "{ " + icfg["wrap_head"] + " " + body + " }"
         text = icfg["wrap_sig"] + " " + body
         substs = list(self.cfg.get("subst", [])) + list(icfg.get("subst", []))
         if icfg.get("w6", self.cfg.get("w6", False)):
